@@ -378,6 +378,30 @@ def guard_defs(body):
                 if fp in body.facts.bodies:
                     clos = fp
             out.append({"bb": i, "local": t["dest"]["l"], "roots": roots, "closure": clos, "target": t.get("target")})
+    # the same thing spelled as a struct with a destructor: a value of a crate type that is new to the rule tables, has a Drop
+    # impl, and is built in this body around (a borrow of) other values - its `drop` plays the closure's role
+    F = getattr(body, "facts", None)
+    if F is not None:
+        import inline as _inl
+        known = _inl.known_fns() or set()
+        for i, k, st in body.stmts():
+            if st["k"] != "assign" or st["rv"]["k"] != "aggregate" or st["p"].get("proj"):
+                continue
+            X = st["rv"].get("adt")
+            if not X or X not in F.adts or X == SCOPEGUARD:
+                continue
+            dp = None
+            for im in F.impls:
+                if im.get("trait") == "core::ops::drop::Drop" and im["self_ty"].get("k") == "adt" and im["self_ty"]["path"] == X:
+                    for it in im["items"]:
+                        if it["name"] == "drop":
+                            dp = it["path"]
+            if not dp or dp not in F.bodies or dp in known or body.path == dp:
+                continue
+            roots = set()
+            for o in st["rv"]["ops"]:
+                _collect_value_roots(body, o, roots)
+            out.append({"bb": i, "local": st["p"]["l"], "roots": roots, "closure": dp, "target": i, "drop_struct": X})
     return out
 
 
